@@ -66,7 +66,8 @@ def engine_b_part(prop, tier):
                        "runs": runs, "reproduced": reproduced}, open(rpath, "w"), indent=1)
             line = f"engineB kernel={r['kernel']} [{r['semantics']}] {r['what']} :: witness {s_['witness']}"
             if reproduced:
-                viol.append((line, rpath))
+                if not any(rp == rpath for (_l, rp) in viol):  # one line per kernel and semantics; the file keeps the last witness
+                    viol.append((line, rpath))
             else:
                 inc.append(line + " -- witness did not reproduce natively (encoding suspect)")
     cov = {"engine_b": {"summary": summ, "kernels": [{k: v for k, v in r.items() if k != "sat"} | {"sat": len(r["sat"])} for r in results],
